@@ -51,7 +51,7 @@ const c12Marker = "@@thriftgo_insertion_point(%s)"
 
 func c12mk(name string) string { return fmt.Sprintf(c12Marker, name) }
 
-var c12RegularPoints = []string{"imports", "a.b", "$x", "Z_9", ""}
+var c12RegularPoints = []string{"imports", "a.b", "$x", "Z_9", "", "svc.", ".svc", "a..b", "svc", "."}
 var c12OddPoints = []string{"extra-methods", "p/q"}
 
 func c12IsRegular(p string) bool {
